@@ -387,4 +387,7 @@ class C17(Prop):
             sim.fail_post("loop-error", f"loop exception handler called: {sim.loop_errors[:2]}")
 
 
+from sim.prop import with_eager  # noqa: E402
+
+C17.tiers = with_eager(C17.tiers, [('default', 100000)])
 PROPS = {"C17": C17()}
